@@ -1,4 +1,5 @@
 From Coq Require Import ExtrOcamlBasic.
 From HV Require Import Gen.Tables Text.TypeOrder Text.TypeNames.
 Extraction "c11_model.ml" compare_types is_normal is_memory is_io is_misc is_cache is_dcache is_icache
-  type_sscanf_cur type_snprintf type_text attr_snprintf obj_type_string lit attr_union_size.
+  type_sscanf_cur type_snprintf type_text attr_snprintf obj_type_string lit attr_union_size
+  get_type_depth_with_attr type_sscanf_as_depth_cur tier_forced_subtype pci_class_string.
